@@ -12,11 +12,11 @@ for l in open(os.path.join(HERE, "properties.jsonl")):
 CLAIMED = {
     "C01": (
         "property-based differential testing against a loop-semantics reference interpreter (Hypothesis, constructive ACM generator)",
-        "Generated-input search: thousands of structurally diverse calls per run over all 43 operations and 4 backend selectors are compared "
+        "Generated-input search: thousands of structurally diverse calls per run over all 43 operations, 4 numpy backend selectors and einx's vmap back end run over a loop-vmap test double are compared "
         "value-by-value with an independent literal-loop interpreter of the notation; failures are bucketed by root cause, shrunk and saved as replay files. "
         "Exploration, not proof: absence of a violation covers the explored cases only.",
         "Trusted: einxverif/loopsem.py (reference semantics written from docs/source/gettingstarted), numpy elementary functions on sub-tensors, Hypothesis. "
-        "Only numpy-family backends are executable here.",
+        "Only numpy is importable here; the vmap adapter chain runs over numpy + a Python-loop vmap (einxverif/loopvmap.py), which says nothing about the real jax/torch vmap.",
         "DESIGN.md §4 C01, §3 S1/S2",
     ),
     "C14": (
@@ -54,9 +54,9 @@ CLAIMED = {
     ),
     "C17": (
         "property-based testing over pairs of axis-length assignments: AST whitelist + integer-masked AST equality of the generated code (Hypothesis)",
-        "Generated-input search over descriptions, backends and rescalings of all axis lengths > 1 (up to 64): the emitted source must stay within a whitelist of "
+        "Generated-input search over descriptions, backends and four rescalings of all axis lengths > 1 (up to 64; small lengths that coincide with shifts / numeric axes; all equal): the emitted source must stay within a whitelist of "
         "straight-line AST node kinds and must be identical up to integer literals across rescalings that preserve the length-1 pattern. Compilation only. Exploration only.",
-        "Trusted: Python's ast module. numpy-family backends only (no vmap-style nested functions are produced here).",
+        "Trusted: Python's ast module. numpy-family backends plus vmap-style code (nested function definitions) from the loop-vmap double.",
         "DESIGN.md §4 C17",
     ),
     "C16": (
@@ -75,7 +75,7 @@ CLAIMED = {
         "DESIGN.md §4 C07",
     ),
     "C12": (
-        "bounded-exhaustive enumeration of token sequences + property-based text fuzzing with round-trip / spacing / quoting oracles",
+        "bounded-exhaustive enumeration of token sequences + property-based text fuzzing + (thorough tier) coverage-guided atheris/libFuzzer campaigns, all with round-trip / spacing / quoting oracles",
         "Every token sequence up to the bound is enumerated (exhaustive: true for that sub-space) and random text, printed valid descriptions, token mutations and "
         "deep nestings are generated; oracles: totality (tree or einx SyntaxError quoting the caller's string with in-range carets), parse(str(tree)) == tree, invariance "
         "under redundant spaces, and no SyntaxError about foreign text from public operations. Exhaustive within the bound, exploration beyond.",
@@ -122,11 +122,11 @@ CLAIMED = {
         "DESIGN.md §4 C11",
     ),
     "C15": (
-        "property-based testing of einx.numpy.adapt_numpylike_reduce / adapt_numpylike_elementwise with instrumented user functions against the loop-semantics interpreter, over short call histories",
+        "property-based testing of einx.numpy.adapt_numpylike_reduce / adapt_numpylike_elementwise and of adapt_with_vmap (einx's jax front-end over a loop-vmap test double) with instrumented user functions against the loop-semantics interpreter, over short call histories",
         "Generated-input search over descriptions, user functions, keyword-only option values (incl. nan/inf, quotes, newlines, containers, numpy scalars) and repeated calls; oracles: loop semantics "
-        "with the same function as elementary operation, the documented argument conventions (axis tuple / equal-rank broadcastable tensors), options forwarded == and type-identical, option names never "
-        "usable as axes, wrong outputs rejected. Three defects of option forwarding are listed as known findings. Exploration only.",
-        "Trusted: einxverif/loopsem.py; adapt_with_vmap is not executable with numpy and is not covered.",
+        "with the same function as elementary operation, the documented argument conventions (axis tuple / equal-rank broadcastable tensors / bracketed sub-tensors), options forwarded == and type-identical, option names never "
+        "usable as axes, wrong outputs (type, shaped non-tensor, rank, shape, arity) rejected. Two defects of option forwarding are listed as known findings. Exploration only.",
+        "Trusted: einxverif/loopsem.py; adapt_with_vmap runs over numpy + a Python-loop vmap (einxverif/loopvmap.py): the einx side of the contract is exercised, the real jax/torch vmap is not.",
         "DESIGN.md §4 C15",
     ),
     "C06": (
